@@ -13,7 +13,9 @@ SPEC = {
     "jobs": [Job("forks", "verifsim", "^TestVerifC08$", shards=(8, 16), timeout=(900, 3600))],
     "floors": {"fork_offers": (100, 1500), "adopted": (15, 200), "refused": (30, 400), "tip-cert:nil": 5, "tip-cert:empty": 8, "tip-cert:under-quorum": 3,
                "tip-cert:forged": 5, "tip-cert:wrong-round": 3, "tip-cert:valid": 30, "tip-cert:duplicated-votes": 5, "adopted:shorter": 8, "content:identity-update": 10, "content:tampered-tip": 5,
-               "len:shorter": 10, "len:equal": 10, "len:longer": 20},
+               "len:shorter": 10, "len:equal": 10, "len:longer": 20,
+               "tip-cert:post-block-committee": (30, 60), "adoptions_reverting_more_txs_of_one_sender_than_the_queue_limit": (4, 10), "reinclusion_checks": (200, 500),
+               "fork_certificates_delivered": (500, 1500)},
     "parallel": 16,
     "assumptions": ["consensus config V12"],
 }
